@@ -78,6 +78,34 @@ type Link struct {
 	Tag    string
 	// KeepAlive is the dialer's KeepAlive setting (net.Dialer semantics)
 	KeepAlive time.Duration
+	// dark: until then the path is dead in both directions (Net.Blackhole)
+	dark time.Time
+}
+
+func (l *Link) isDark() bool { return time.Now().Before(l.dark) }
+
+// Blackhole makes the path of l silently dead for dur of virtual time (a NAT
+// entry that expired, a route that went away): nothing is delivered in either
+// direction and neither end learns what the other does - a FIN or the RST that
+// answers a write to a closed socket do not get through either. A local Close
+// still ends a blocked local Read or Write at once. Afterwards the link is an
+// ordinary one again and the ends see what happened meanwhile.
+func (n *Net) Blackhole(l *Link, dur time.Duration) {
+	n.mu.Lock()
+	until := time.Now().Add(dur)
+	l.dark = until
+	l.Dir[0].stalled, l.Dir[1].stalled = until, until
+	n.fired("blackhole")
+	n.mu.Unlock()
+	time.AfterFunc(dur, func() {
+		n.mu.Lock()
+		for _, p := range l.Dir {
+			p.rq.Wake()
+			p.wq.Wake()
+		}
+		n.mu.Unlock()
+		n.W.Ping()
+	})
 }
 
 // KeepAlivePeriod models net.Dialer.KeepAlive: a negative value disables
@@ -498,7 +526,7 @@ func (c *Conn) Read(b []byte) (int, error) {
 			}
 			return k, nil
 		}
-		if p.fin && len(p.inflight) == 0 {
+		if p.fin && len(p.inflight) == 0 && !c.link.isDark() {
 			return 0, io.EOF
 		}
 		if !c.rdl.IsZero() && !time.Now().Before(c.rdl) {
@@ -522,7 +550,7 @@ func (c *Conn) Write(b []byte) (int, error) {
 	if p.rst {
 		return 0, syscall.ECONNRESET
 	}
-	if p.fin || c.link.Ends[1-c.side].closed {
+	if p.fin || (c.link.Ends[1-c.side].closed && !c.link.isDark()) {
 		// our FIN was sent, or the peer is gone: as TCP, the write fails (EPIPE / RST)
 		return 0, syscall.EPIPE
 	}
@@ -582,7 +610,7 @@ func (c *Conn) writeWindowed(b []byte) (int, error) {
 			err = syscall.ECONNRESET
 			break
 		}
-		if p.fin || peer.closed {
+		if p.fin || (peer.closed && !c.link.isDark()) {
 			err = syscall.EPIPE
 			break
 		}
